@@ -171,6 +171,11 @@ class OutputBuffer:
     def v(self, s: str, write_now: bool = False) -> 'OutputBuffer':
         '''Prints a message if verbose output is enabled.'''
         if self.verbose or self.debug:
+            # When JSON output is enabled, stdout must hold nothing but the JSON document, so progress messages go to stderr.
+            if self.json:
+                print(s, file=sys.stderr)
+                return self
+
             self.info(s)
             if write_now:
                 self.write()
